@@ -319,3 +319,44 @@ def exact_size_layout(rng, size, notation="iso"):
     lay.tslen = notation_tslen(notation)
     assert lay.size == size, (lay.size, size)
     return lay
+
+
+def span_layout(rng, B, notation="iso", nblocks=3, parts=1):
+    """Block zero is filled exactly by two short messages; the next message (one long line, or `parts` lines) runs over
+    `nblocks` blocks and its last newline is the FIRST byte of the block after them; short messages follow in that block."""
+    lines, dated = [], []
+    k = 0
+
+    def head():
+        nonlocal k
+        k += 1
+        return ts_head(k, notation) + b" sp=%d " % k
+    h1 = head()
+    l1 = h1 + b"a" * max(0, B // 2 - len(h1) - 1) + b"\n"
+    h2 = head()
+    l2 = h2 + b"b" * (B - len(l1) - len(h2) - 1) + b"\n"
+    lines += [l1, l2]
+    dated += [True, True]
+    total = nblocks * B + 1          # from offset B to the newline at offset (nblocks + 1) * B
+    h3 = head()
+    if parts == 1:
+        lines.append(h3 + b"m" * (total - len(h3) - 1) + b"\n")
+        dated.append(True)
+    else:
+        first = h3 + b"m" * 40 + b"\n"
+        lines.append(first)
+        dated.append(True)
+        rest = total - len(first)
+        per = rest // (parts - 1)
+        for q in range(parts - 1):
+            ln = per if q < parts - 2 else rest - per * (parts - 2)
+            lines.append(b"   at " + b"c" * (ln - 7) + b"\n")
+            dated.append(False)
+    for _ in range(12):
+        h = head()
+        lines.append(h + b"s" * rng.choice([0, 3, 9]) + b"\n")
+        dated.append(True)
+    lay = Layout(lines, dated)
+    lay.tslen = notation_tslen(notation)
+    assert lay.data[(nblocks + 1) * B:(nblocks + 1) * B + 1] == b"\n" and lay.size > (nblocks + 1) * B + 40
+    return lay
